@@ -69,6 +69,15 @@ def drive(rng, tier):
         static = False
     ops = [("trie", x) for x in writes]
     outs = [w.step(o) for o in ops]
+    # a second, independent walk in the same process: another trie with related keys and other values, its own fog and its own
+    # TrieFrontierCache(), advanced alternately with the walk under test. Nothing of it may leak into the walk under test
+    # (its steps are not part of the recorded schedule; the walk under test is judged by its own oracle).
+    shadow = None
+    if rng.random() < 0.35:
+        shadow = WX.Walker(False, True)
+        for x in writes:
+            if x[0] == "set" and x[2] != b"":
+                shadow.step(("trie", ("set", x[1] if rng.random() < 0.6 else x[1][:-1] + b"\x3c", b"shadow-" + x[2][:40], "meth")))
     stable = dict(m)                 # keys whose value has not changed since the walk began
     ever = set((tuple(nib(k)), v) for k, v in m.items())
     stats = {"mut": 0, "partial": 0, "stale": 0, "steps": 0}
@@ -120,6 +129,8 @@ def drive(rng, tier):
         out = w.step(op)
         ops.append(op)
         outs.append(out)
+        if shadow is not None and op[0] == "step" and not shadow.fog.is_complete:
+            shadow.step(("step", True, [rng.randrange(16) for _ in range(rng.randint(0, 3))]))
         if op[0] == "step":
             if out == Exc(15) or w.says_done:
                 done = True
